@@ -168,6 +168,15 @@ func (l *logW) LastTerm() uint64                              { return l.inner.L
 func (l *logW) NextIndex() uint64                             { return l.inner.NextIndex() }
 func (l *logW) Size() int                                     { return l.inner.Size() }
 
+// after records what the real log reports once the operation returned, so that the monitor
+// can compare it with the log it reconstructs from the operations' meaning.
+func (l *logW) after(e Ev, err error) error {
+	if err == nil {
+		e["last"], e["lastt"], e["size"] = int(l.inner.LastIndex()), int(l.inner.LastTerm()), l.inner.Size()
+	}
+	return err
+}
+
 func (l *logW) AppendEntry(entry *raft.LogEntry) error {
 	return l.AppendEntries([]*raft.LogEntry{entry})
 }
@@ -179,21 +188,22 @@ func (l *logW) AppendEntries(entries []*raft.LogEntry) error {
 		return l.inner.AppendEntries(entries)
 	}
 	e := Ev{"entries": l.n.c.entsEv(entries), "ctx": l.n.ctx()}
-	return l.n.op("log_append", e, func() error { return l.inner.AppendEntries(entries) })
+	return l.n.op("log_append", e, func() error { return l.after(e, l.inner.AppendEntries(entries)) })
 }
 
 func (l *logW) Truncate(index uint64) error {
-	return l.n.op("log_truncate", Ev{"index": int(index)}, func() error { return l.inner.Truncate(index) })
+	e := Ev{"index": int(index)}
+	return l.n.op("log_truncate", e, func() error { return l.after(e, l.inner.Truncate(index)) })
 }
 
 func (l *logW) DiscardEntries(index uint64, term uint64) error {
-	return l.n.op("log_discard", Ev{"index": int(index), "term": int(term)}, func() error {
-		return l.inner.DiscardEntries(index, term)
-	})
+	e := Ev{"index": int(index), "term": int(term), "ctx": l.n.ctx()}
+	return l.n.op("log_discard", e, func() error { return l.after(e, l.inner.DiscardEntries(index, term)) })
 }
 
 func (l *logW) Compact(index uint64) error {
-	return l.n.op("log_compact", Ev{"index": int(index)}, func() error { return l.inner.Compact(index) })
+	e := Ev{"index": int(index), "ctx": l.n.ctx()}
+	return l.n.op("log_compact", e, func() error { return l.after(e, l.inner.Compact(index)) })
 }
 
 // ---- term / vote --------------------------------------------------------------------------
@@ -242,6 +252,7 @@ type snapFileW struct {
 	writer bool
 	mirror bytes.Buffer
 	closed bool
+	own    bool // written by the node's own state machine (takeSnapshot), not by InstallSnapshot
 }
 
 func (s *snapW) NewSnapshotFile(idx, term uint64, cfg []byte) (raft.SnapshotFile, error) {
@@ -312,7 +323,11 @@ func (f *snapFileW) Close() error {
 	f.closed = true
 	md := f.inner.Metadata()
 	sum := sha256.Sum256(f.mirror.Bytes())
-	e := Ev{"fid": f.fid, "index": int(md.LastIncludedIndex), "term": int(md.LastIncludedTerm),
+	ctx := "h"
+	if f.own {
+		ctx = ""
+	}
+	e := Ev{"fid": f.fid, "index": int(md.LastIncludedIndex), "term": int(md.LastIncludedTerm), "ctx": ctx,
 		"size": f.mirror.Len(), "h": hex.EncodeToString(sum[:6]), "cfg": f.n.c.cfgBytesEv(md.Configuration)}
 	content, ok := decodeSnapshot(f.mirror.Bytes())
 	e["ok"] = ok
